@@ -15,6 +15,24 @@ CHECKS = {
                 note="Trusted: the E2 stub pools model the observable contract of ThreadPool / MemmappingPool / "
                      "loky executor / a public-API backend; switch points are line (sometimes opcode) boundaries "
                      "of joblib/parallel.py, _parallel_backends.py, _utils.py plus every simulated primitive."),
+    "C04": dict(engine="detsched+simpool", cat="exploration", ref="DESIGN.md section 3 (C04)",
+                technique="deterministic simulation with fault injection: failing tasks / failing input iterator / "
+                          "never-completing task under timeout / late completions, seeded schedules, history of calls",
+                text="Seeded exploration of fault plans x schedules x call histories (fail/succeed/fail on one "
+                     "Parallel object, managed or not) with an oracle on the raised exception (type and args of an "
+                     "exception really raised by a task or the input), termination (deadlock/hang verdicts of the "
+                     "engine on a virtual clock), timeout promptness and absence of leftovers in later calls.",
+                note="Same trusted base as C01; a backend that cannot abort (flavour G) keeps executing queued work "
+                     "of an aborted call, which is allowed; only its effect on later calls is judged."),
+    "C09": dict(engine="detsched+simpool", cat="exploration", ref="DESIGN.md section 3 (C09)",
+                technique="deterministic simulation: invariants monitored at every pull of an instrumented input "
+                          "iterator under seeded schedules, with task failure and generator close as faults",
+                text="Online monitors (re-entrancy, look-ahead bound independent of the input length, batches in "
+                     "flight <= pre_dispatch, 'all' taken up front, no pull after abort/close) evaluated at every "
+                     "pull under seeded schedules; inputs up to 400 items so that an unbounded look-ahead shows.",
+                note="Same trusted base as C01. The bound (pre_dispatch + n_jobs) * batch size is derived from the "
+                     "documented contract; known finding F9b (inline completion during the initial loop) is keyed "
+                     "by its cause and reported as KNOWN-FINDING."),
 }
 NOT_APPLICABLE = {
     "C03": "pure function of (object, compressor, protocol, target): no schedule, clock, fault or history for a simulator to own; input enumeration is not this technique (its damaged-file cousin is C14, its stateful reader C13)",
